@@ -131,6 +131,11 @@ StringDictionaryXBW::StringDictionaryXBW(IteratorDictString *it) {
 }
 
 unsigned long StringDictionaryXBW::locate(uchar *str, uint strLen) {
+  // The empty string is never a member (the search below would select the
+  // whole node range for it and report the last string's ID)
+  if (strLen == 0)
+    return NORESULT;
+
   uchar *qry = new uchar[strLen + 1];
   qry[0] = 0;
   strncpy((char *)qry + 1, (char *)str, strLen);
